@@ -376,6 +376,27 @@ def need_of(b, k):
     return None
 
 
+def strip_finalize(pipe):
+    """a pipeline without the BatchSafe(Finalize()) members `Environments` adds when it is iterated (Environments.shuffle sorts
+    its members): Finalize rewrites interactions on purpose and is not a C09 filter"""
+    from coba.environments.filters import BatchSafe, Finalize
+    from coba.pipes import Pipes
+    parts = [p_ for p_ in pipe if not (isinstance(p_, BatchSafe) and isinstance(getattr(p_, "_filter", None), Finalize))]
+    return Pipes.join(*parts)
+
+
+def join_tree(node, leaves):
+    """Pipes.join over a nested list of stage indices: a list is a joined pipe of its members, an int the filter object"""
+    from coba.pipes import Pipes
+    if isinstance(node, int):
+        return leaves[node]
+    return Pipes.join(*[join_tree(c, leaves) for c in node])
+
+
+def tree_leaves(node):
+    return [node] if isinstance(node, int) else [x for c in node for x in tree_leaves(c)]
+
+
 def pipes_by_env(e):
     """{index of the source environment: [pipelines]} of an Environments object (Finalize taken off, as in via_envs)"""
     from coba.environments.filters import BatchSafe, Finalize
@@ -625,11 +646,11 @@ def _lean_pairs(ps):
     return "[%s]" % ", ".join("(%s, %s)" % (_lean_str(a), _lean_str(b)) for a, b in ps)
 
 
-def extract_program(repo, name):
-    """the body of Environments.<name> as a small program: [(depth, kind, a, b)] - kind assign (target, expression), if (test),
+def extract_program(repo, name, path="coba/environments/core.py", cls="Environments"):
+    """the body of Environments.<name> (or <cls>.<name> of another file) as a small program: [(depth, kind, a, b)] - kind assign (target, expression), if (test),
     else, return (expression); docstring and comments dropped, expressions as ast.unparse text"""
-    core = ast.parse(open(os.path.join(repo, "coba/environments/core.py"), encoding="utf-8").read())
-    envs = next(n for n in ast.walk(core) if isinstance(n, ast.ClassDef) and n.name == "Environments")
+    core = ast.parse(open(os.path.join(repo, path), encoding="utf-8").read())
+    envs = next(n for n in ast.walk(core) if isinstance(n, ast.ClassDef) and n.name == cls)
     fn = next(f for f in envs.body if isinstance(f, ast.FunctionDef) and f.name == name and not any(ast.unparse(d).endswith("overload") for d in f.decorator_list))
     out = []
 
@@ -645,6 +666,9 @@ def extract_program(repo, name):
                     walk(st.orelse, d + 1)
             elif isinstance(st, ast.Assign) and len(st.targets) == 1:
                 out.append((d, "assign", ast.unparse(st.targets[0]), ast.unparse(st.value)))
+            elif isinstance(st, ast.For) and not st.orelse:
+                out.append((d, "for", ast.unparse(st.target), ast.unparse(st.iter)))
+                walk(st.body, d + 1)
             elif isinstance(st, ast.Return):
                 out.append((d, "return", "" if st.value is None else ast.unparse(st.value), ""))
             else:
@@ -667,6 +691,13 @@ def shortcuts_lean(repo):
             "def ctors : List CtorRow := [\n%s]\n"
             "def shuffleProgram : List PLine := PROG_SHUFFLE\n"
             "def chunkProgram : List PLine := PROG_CHUNK\n"
+            "-- phase 6: the code that runs a pipeline of filters (pipes/filters.py FiltersFilter, pipes/sources.py SourceFilters) and\n"
+            "-- Environments.filter\n"
+            "def filtersFilterInit : List PLine := PROG_FFINIT\n"
+            "def filtersFilterFilter : List PLine := PROG_FFFILTER\n"
+            "def sourceFiltersInit : List PLine := PROG_SFINIT\n"
+            "def sourceFiltersRead : List PLine := PROG_SFREAD\n"
+            "def environmentsFilter : List PLine := PROG_ENVFILTER\n"
             "end Coba.Generated.C09\n"
             % (",\n".join("  { method := %s, sig := %s, calls := [%s] }" % (_lean_str(m), _lean_pairs(sg), ", ".join("(%s, %s)" % (_lean_str(c), _lean_pairs(a)) for c, a in calls)) for m, sg, calls in rows),
                ",\n".join("  { cls := %s, src := %s, sig := %s }" % (_lean_str(c), _lean_str(w), _lean_pairs(sg)) for c, w, sg in ctors)))
@@ -675,6 +706,14 @@ def shortcuts_lean(repo):
     except Exception:  # noqa: BLE001 - an unextractable body breaks shuffle_chunk_programs_as_modelled
         ps = pc = "[]"
     body = body.replace("PROG_SHUFFLE", ps).replace("PROG_CHUNK", pc)
+    for tag, args in (("PROG_FFINIT", ("__init__", "coba/pipes/filters.py", "FiltersFilter")), ("PROG_FFFILTER", ("filter", "coba/pipes/filters.py", "FiltersFilter")),
+                      ("PROG_SFINIT", ("__init__", "coba/pipes/sources.py", "SourceFilters")), ("PROG_SFREAD", ("read", "coba/pipes/sources.py", "SourceFilters")),
+                      ("PROG_ENVFILTER", ("filter", "coba/environments/core.py", "Environments"))):
+        try:
+            txt = _lean_prog(extract_program(repo, *args))
+        except Exception:  # noqa: BLE001 - an unextractable body breaks pipeline_code_as_modelled
+            txt = "[]"
+        body = body.replace(tag, txt)
     return body, rows, ctors
 
 
@@ -700,6 +739,9 @@ class C09(Property):
             "5 % 2-3 environments (up to 60 interactions) behind .cache()/.chunk() with shuffle / reservoir / sort / riffle (and selecting) branches, reads closed / dropped / "
             "alive (cachemulti); 3 % every call form of Environments.shuffle (n=, seed=, seeds=, nested lists, positional, nothing) and chunk(cache) (shufcall); corpus: 15 long reservoir runs "
             "(25-234 replacement steps, crossing the 20-triple batch of Reservoir.filter) checked against an independent Algorithm L over public CobaRandom calls; "
+            "7 % pipelines of 2-5 filters on one environment (chain): chained Environments shortcuts / one Pipes.join / nested Pipes.join calls of any shape / "
+            "a FiltersFilter applied to the interactions, 45 % of the following stages of the same kind as the one before (a third of those with the same "
+            "parameters, then possibly the same OBJECT at both positions), read completely, again, abandoned (closed), again; "
             "distinct by canonical JSON of the case")
     trusted_base = [
         "Reservoir's W = W*r1**x, S = floor(log(r2,1-W)), slot = int(r3*n) are evaluated by the model itself on Lean `Float` (IEEE doubles, the C "
@@ -746,6 +788,8 @@ class C09(Property):
                     "import CobaVerif.Model.C09\nnamespace Coba.Generated.C09\nopen Coba.C09\n"
                     "def extracted : Bool := false\ndef shortcuts : List ShortcutRow := []\ndef ctors : List CtorRow := []\n"
                     "def shuffleProgram : List PLine := []\ndef chunkProgram : List PLine := []\n"
+                    "def filtersFilterInit : List PLine := []\ndef filtersFilterFilter : List PLine := []\ndef sourceFiltersInit : List PLine := []\n"
+                    "def sourceFiltersRead : List PLine := []\ndef environmentsFilter : List PLine := []\n"
                     "end Coba.Generated.C09\n" % str(e).replace("\n", " ")[:150])
             notes = ["shortcut table could NOT be extracted (%s): shortcuts_wired_as_modelled fails" % e]
         path = os.path.join(lean.LEAN_DIR, "CobaVerif", "Generated", "C09Shortcuts.lean")
@@ -865,6 +909,8 @@ class C09(Property):
             return self.generate_cachemulti(rng, tier, boundary)
         if r < 36:
             return self.generate_shufcall(rng, tier, boundary)
+        if r < 43:
+            return self.generate_chain(rng, tier, boundary)
         return self.generate_single(rng, tier, boundary)
 
     # ------------------------------------------------------------ selecting filters around a shared .cache() / .chunk()
@@ -1353,6 +1399,276 @@ class C09(Property):
                 fails.append(F("A", "Environments(...).chunk(%s) appends %s to the environments, the model (chunkFilters) %s" % ("" if ck == "default" else "cache=%s" % ck, chunk_names, mexp), "A:chunk-filters"))
         return {"fails": fails, "nontrivial": len(want) >= 1 and sum(1 for e_ in envs if len(e_) >= 2) >= 1, "tags": tags, "impl": impl, "model": model}
 
+    # ------------------------------------------------------------ phase 6: pipelines of several filters (composition depth / position)
+    CHAIN_FORMS = ("methods", "join", "nested", "nested-src", "filter")
+
+    def gen_stage(self, rng, n, items, ctxk, meta, prev=None):
+        """one more filter of a pipeline; with a previous stage: 45 % the SAME kind again (2nd Take / Slice / Shuffle / Where ...),
+        a third of those with the very same parameters"""
+        if prev is not None and rng.chance(0.45):
+            if rng.chance(0.35):
+                return json.loads(json.dumps(prev))
+            kind = prev["name"]
+        else:
+            kind = rng.wchoice([(18, "take"), (16, "slice"), (14, "where"), (14, "eshuffle"), (12, "reservoir"), (10, "riffle"), (5, "params"), (4, "identity")]
+                               + ([(14, "sort")] if ctxk in ("list", "dict") else []))
+        near = [1, 2, max(1, n - 2), max(1, n - 1), n, n + 1, rng.randint(1, n + 2)] + ([0] if rng.chance(0.3) else [])
+        if kind == "take":
+            op = {"name": "take", "count": rng.choice(near + [None])}
+            if rng.chance(0.8):
+                op["strict"] = rng.chance(0.35)
+            return op
+        if kind == "slice":
+            return {"name": "slice", "start": rng.choice([None, 0, 1, 2, rng.randint(0, max(1, n // 2))]), "stop": rng.choice([None, None] + near), "step": rng.choice([None, 1, 2, 3])}
+        if kind == "where":
+            op = {"name": "where"}
+            r = rng.below(100)
+            if r < 70:
+                op["n_interactions"] = self.gen_range(rng, rng.choice([n, n, max(0, n - 1), max(0, n - 2), 1]))
+            if r >= 45:
+                acts = [len(it["actions"]) for it in items if it.get("actions") is not None]
+                if len(acts) == len(items):
+                    op["n_actions"] = self.gen_range(rng, rng.choice(acts) if acts else 2)
+            if len(op) == 1:
+                op["n_interactions"] = self.gen_range(rng, n)
+            return op
+        if kind == "eshuffle":
+            return {"name": "eshuffle", "seed": self.gen_seed(rng, nonneg_int=True), "how": rng.below(4)}
+        if kind == "reservoir":
+            return {"name": "reservoir", "count": rng.choice([1, 2, 3, max(1, n - 1), n, n + 1, None, rng.randint(0, n + 2)]),
+                    "strict": rng.chance(0.3), "seed": self.gen_seed(rng, nonneg_int=True), "how": rng.below(2)}
+        if kind == "riffle":
+            return {"name": "riffle", "spacing": rng.choice([0, 1, 2, 3, 6]), "seed": self.gen_seed(rng, nonneg_int=True)}
+        if kind == "sort":
+            if ctxk == "list":
+                keys = [rng.below(meta["width"]) for _ in range(rng.randint(0, 2))]
+            else:
+                keys = [rng.choice(meta["spkeys"]) for _ in range(rng.randint(1, 2))]
+            return {"name": "sort", "keys": keys}
+        return {"name": kind}
+
+    def gen_shape(self, rng, idx):
+        """a random nesting of the stage indices (order kept): the arguments of nested Pipes.join calls"""
+        if len(idx) == 1:
+            return [idx[0]] if rng.chance(0.3) else idx[0]
+        out, i = [], 0
+        while i < len(idx):
+            w = rng.randint(1, len(idx) - i)
+            grp = idx[i:i + w]
+            out.append(self.gen_shape(rng, grp) if (len(grp) > 1 or rng.chance(0.3)) and len(grp) < len(idx) else (grp[0] if len(grp) == 1 else list(grp)))
+            i += w
+        return out
+
+    def generate_chain(self, rng, tier, boundary=False):
+        """ONE environment behind a pipeline of 2-5 filters - built by chained Environments shortcuts, by one Pipes.join, by nested
+        Pipes.join calls (any nesting, with or without the source inside the first group) or as a FiltersFilter applied to the
+        interactions; the same filter OBJECT may stand at several positions; the pipeline is read completely, again, abandoned, again"""
+        n = rng.choice([0, 1, 2, 3, 5, 6, 8, 10, 13, 20, 30]) if not boundary else rng.choice([2, 3, 4, 5, 6, 8])
+        kind = rng.wchoice([(55, "sim"), (30, "log"), (15, "grd")])
+        self._sparse_ids = rng.chance(0.2)
+        self._log_prob = rng.chance(0.6)
+        self._log_acts = True
+        self._extra = rng.chance(0.2)
+        self._bare_keys = []
+        ctxk = rng.choice(["list", "list", "dict", "none"])
+        items, meta = self.gen_items(rng, n, kind, ctxk, "list")
+        depth = rng.choice([2, 2, 2, 3, 3, 4, 5])
+        stages, cur = [], n
+        for _ in range(depth):
+            st = self.gen_stage(rng, cur, items, ctxk, meta, stages[-1] if stages else None)
+            stages.append(st)
+            if st["name"] == "take" and st["count"] is not None:
+                cur = min(cur, st["count"])
+            elif st["name"] == "slice":
+                cur = len(range(cur)[st["start"]:st["stop"]:st["step"]])
+        form = rng.choice(self.CHAIN_FORMS)
+        op = {"name": "chain", "stages": stages, "form": form, "same_object": rng.chance(0.5)}
+        if form != "methods":
+            op["shape"] = self.gen_shape(rng, list(range(depth)))
+            if isinstance(op["shape"], int):
+                op["shape"] = [op["shape"]]
+        reads = [None] + [rng.choice([None, 0, 1, 2, rng.randint(0, n + 1)]) for _ in range(rng.randint(1, 3))]
+        return {"kind": kind, "items": items, "op": op, "reads": reads, "input": rng.choice(["list", "iter", "gen"])}
+
+    def corpus_chain(self, sim, log):
+        cs = []
+        t = lambda c, st=False: {"name": "take", "count": c, "strict": st}
+        sl = lambda a, b, s=None: {"name": "slice", "start": a, "stop": b, "step": s}
+        sh = lambda v: {"name": "eshuffle", "seed": {"kind": "int", "v": v}, "how": 0}
+        rs = lambda c, v: {"name": "reservoir", "count": c, "strict": False, "seed": {"kind": "int", "v": v}}
+        rf = lambda sp, v: {"name": "riffle", "spacing": sp, "seed": {"kind": "int", "v": v}}
+        so = lambda *k: {"name": "sort", "keys": list(k)}
+        wh = lambda **kw: dict({"name": "where"}, **kw)
+        chains = [[t(5), t(3)], [t(3), t(5)], [t(2), t(3, True)], [t(4, True), t(4, True)], [sl(1, None, 2), sl(1, None, 2)], [sl(2, 9), sl(None, 3), sl(1, None)],
+                  [sh(1), sh(1)], [sh(1), sh(2), sh(1)], [rs(6, 1), rs(3, 1)], [rf(2, 1), rf(2, 1)], [so(0), so(1)], [so(0), so(0)],
+                  [wh(n_interactions={"min": 5, "max": None}), t(4), wh(n_interactions={"min": 5, "max": None})],
+                  [wh(n_interactions={"min": None, "max": 4}), wh(n_interactions=10)], [t(8), sh(3), t(4), so(0), sl(1, None)],
+                  [sh(5), t(6), rs(4, 2), rf(1, 3), t(3, True)], [{"name": "params"}, t(3), {"name": "identity"}, t(2)]]
+        forms = [("methods", None), ("join", [0, 1, 2, 3, 4]), ("nested", [[0], [1, [2, [3, 4]]]]), ("nested-src", [[0, 1], [[2], 3], 4]), ("filter", [[[0, 1]], 2, [3, 4]])]
+        for ci, ch in enumerate(chains):
+            for fi, (form, shape) in enumerate(forms):
+                if (ci + fi) % 2 and form not in ("methods", "nested"):
+                    continue
+                op = {"name": "chain", "stages": ch, "form": form, "same_object": True}
+                if shape is not None:
+                    def cut(node):
+                        if isinstance(node, int):
+                            return node if node < len(ch) else None
+                        kids = [c for c in (cut(x) for x in node) if c is not None and c != []]
+                        return kids
+                    op["shape"] = cut(shape)
+                cs.append({"kind": "log" if ci % 3 == 2 else "sim", "items": (log if ci % 3 == 2 else sim)(10), "op": op, "reads": [None, 2, None], "input": ("list", "iter", "gen")[ci % 3]})
+        return cs
+
+    def evaluate_chain(self, case, driver):
+        """(B) stage by stage: filter i (a fresh object, alone) must deliver what it promises for what filter i-1 delivered; the
+        pipeline - however it was put together, at every complete read - must deliver what the last stage delivers (each filter is
+        a function of its parameters and its input, wherever it stands); abandoned reads are prefixes; content unchanged.
+        (A) every stage, the pipeline, the nested join (spliced and member-by-member) and the number of filters against
+        `pipeline` / `Pipe` of the model."""
+        import gc
+        from coba.environments import Environments
+        from coba.pipes import Pipes
+        fails, tags = [], []
+        op, mode, items = case["op"], case.get("input", "list"), case["items"]
+        stages, form = op["stages"], op["form"]
+        n, k = len(items), len(op["stages"])
+        R = Run({"kind": case["kind"], "items": items, "op": {"name": "identity"}, "input": mode})
+        by_id = {it["id"]: it for it in items}
+        obj_by_id = {it["id"]: o for it, o in zip(items, R.items)}
+        names = [st["name"] for st in stages]
+        what = "pipeline %s (%s%s) on %d %s interactions (%s)" % (" -> ".join(json.dumps(st) for st in stages), form,
+                                                                  "" if form == "methods" else " " + json.dumps(op.get("shape")), n, case["kind"], mode)
+        tags += ["op:chain", "chain:form=" + form, "chain:depth=%d" % k, "kind:" + case["kind"], "input:" + mode]
+        for i in range(1, k):
+            if names[i] == names[i - 1]:
+                tags.append("chain:2nd-" + names[i] + ("-same-parameters" if stages[i] == stages[i - 1] else ""))
+        if len(set(names)) < len(names):
+            tags.append("chain:kind-repeated")
+
+        def bfail(msg, sig):
+            fails.append(F("B", "%s: %s" % (what, msg), "chain-" + sig))
+
+        # ---- the stages, one at a time, each a fresh filter object applied to what the stage before delivered
+        cur, stage_out, impl = [it["id"] for it in items], [], {"stages": [], "reads": []}
+        for i, st in enumerate(stages):
+            sub = {"kind": case["kind"], "items": [by_id[j] for j in cur], "op": st, "input": "list"}
+            try:
+                o = R.collect(mk_filter(st).filter(give([obj_by_id[j] for j in cur], "list" if i else mode)))
+            except Exception as e:  # noqa: BLE001
+                o = {"err": errname(e), "msg": str(e)[:120]}
+            impl["stages"].append(o.get("ids", o.get("err")))
+            stage_out.append(o)
+            self.promise(sub, o, lambda msg, sig, i=i, st=st: bfail("stage %d (%s) alone on the %d interactions stage %d delivers: %s" % (i, st["name"], len(cur), i - 1, msg), sig), tags if i else [])
+            if "err" in o or fails:
+                break
+            cur = o["ids"]
+            tags.append("chain:stage%d-in=%s" % (i + 1, "0" if not cur else "1" if len(cur) == 1 else "2+"))
+        if fails:
+            return {"fails": fails, "nontrivial": False, "tags": tags, "impl": impl, "model": None}
+        final = stage_out[-1]
+
+        # ---- the pipeline as the case builds it
+        try:
+            same_obj = op.get("same_object")
+            leaves = []
+            for i, st in enumerate(stages):
+                j = next((j for j in range(i) if stages[j] == st), None) if same_obj else None
+                leaves.append(leaves[j] if j is not None else mk_filter(st))
+            if any(leaves[i] is leaves[j] for i in range(k) for j in range(i)) and form != "methods":
+                tags.append("chain:same-object-twice")
+            src = _list_env_class()(R.items, mode, 0)
+            if form == "methods":
+                e = Environments(src)
+                for st in stages:
+                    e = apply_method(e, st)
+                ps = list(getattr(e, "_envs"))
+                if len(ps) != 1:
+                    bfail("%d pipelines for one environment" % len(ps), "methods-pipeline-count")
+                    return {"fails": fails, "nontrivial": False, "tags": tags, "impl": impl, "model": None}
+                pipe = strip_finalize(ps[0])
+                read = pipe.read
+                nfilters = len(pipe) - 1
+            elif form == "filter":
+                ff = join_tree(op["shape"], leaves)
+                read = lambda: ff.filter(give(R.items, mode))
+                nfilters = len(ff)
+            else:
+                shape = op["shape"]
+                if form == "nested-src" and len(shape) >= 1:
+                    first = Pipes.join(src, join_tree(shape[0], leaves))
+                    pipe = Pipes.join(first, *[join_tree(c, leaves) for c in shape[1:]])
+                else:
+                    pipe = Pipes.join(src, *[join_tree(c, leaves) for c in shape])
+                read = pipe.read
+                nfilters = len(pipe) - 1
+        except Exception as e:  # noqa: BLE001
+            bfail("building the pipeline raised %s (%s)" % (errname(e), str(e)[:100]), "build-raises-" + errname(e))
+            return {"fails": fails, "nontrivial": False, "tags": tags, "impl": impl, "model": None}
+        impl["nfilters"] = nfilters
+        first_full = None
+        for step, c in enumerate(list(case.get("reads") or [None]) + [None]):
+            try:
+                g = iter(read())
+                if c is None:
+                    o = R.describe(list(g))
+                else:
+                    o = R.describe(list(itertools.islice(g, c)))
+                    if hasattr(g, "close") and step % 2:
+                        g.close()
+                del g
+                gc.collect(0)
+            except Exception as e:  # noqa: BLE001
+                o = {"err": errname(e), "msg": str(e)[:120]}
+            impl["reads"].append([c, o.get("ids", o.get("err"))])
+            tags.append("chain:read-" + ("full" if c is None else "partial"))
+            label = "read #%d (%s)" % (step, "complete" if c is None else "abandoned after %d" % c)
+            if c is None:
+                if first_full is None:
+                    first_full = o
+                if not same(o, final):
+                    pos = "-".join(names) if k <= 2 else "%d-filters" % k
+                    bfail("%s delivers %s, the stages one after the other deliver %s (stage outputs %s)" % (label, o.get("ids", o.get("err")), final.get("ids", final.get("err")), impl["stages"]),
+                          ("pipeline-differs-from-its-stages" if step == 0 else "pipeline-reread-differs") + ":" + pos)
+                    break
+                if o.get("bad"):
+                    bfail(o["bad"][0], "content-altered")
+                    break
+            else:
+                if "err" in o:
+                    if "err" not in final:
+                        bfail("%s raised %s (%s)" % (label, o["err"], o.get("msg", "")), "partial-read-raises-" + o["err"])
+                        break
+                elif "ids" in final and o["ids"] != final["ids"][:c]:
+                    bfail("%s delivers %s, a complete read starts with %s" % (label, o["ids"], final["ids"][:c]), "partial-read-differs")
+                    break
+                elif o["bad"]:
+                    bfail(o["bad"][0], "content-altered")
+                    break
+        model = None
+        if driver is not None and not fails:
+            reqs = [self.inner_req(st) for st in stages]
+            tree = (lambda f: f(f, op["shape"]))(lambda f, node: reqs[node] if isinstance(node, int) else [f(f, c) for c in node]) if form != "methods" else list(reqs)
+            ans = driver.ask({"op": "chain", "ops": reqs, "tree": tree, "items": model_items({"kind": case["kind"], "items": items})})
+            model = ans
+            mo = lambda r: r.get("out", r.get("err"))
+            mst = [mo(r) for r in ans["stages"]]
+            for i, o in enumerate(stage_out):
+                if mst[i + 1] != o.get("ids", o.get("err")):
+                    fails.append(F("A", "%s: stage %d (%s) delivers %s, the model's pipeline prefix %s" % (what, i, names[i], o.get("ids", o.get("err")), mst[i + 1]), "A:chain-stage-" + names[i]))
+                    break
+            else:
+                got = first_full.get("ids", first_full.get("err")) if first_full else None
+                if mo(ans["flat"]) != got:
+                    fails.append(F("A", "%s: the pipeline delivers %s, the model (pipeline) %s" % (what, got, mo(ans["flat"])), "A:chain"))
+                if not (mo(ans["flat"]) == mo(ans["joined"]) == mo(ans["unit"])):
+                    fails.append(F("C", "%s: model: flat %s, spliced join %s, member by member %s" % (what, mo(ans["flat"]), mo(ans["joined"]), mo(ans["unit"])), "C:chain-join"))
+                if not (ans.get("ran_filter") == ans.get("ran_read") == ans["joined"]):
+                    fails.append(F("C", "%s: the interpreted method bodies give %s / %s, chainF %s" % (what, ans.get("ran_filter"), ans.get("ran_read"), ans["joined"]), "C:chain-program"))
+                if ans["nfilters"] != nfilters:
+                    fails.append(F("A", "%s: the joined pipe holds %d filters, the model's spliced list %d" % (what, nfilters, ans["nfilters"]), "A:chain-nfilters"))
+        return {"fails": fails, "nontrivial": n >= 2 and k >= 2, "tags": tags, "impl": impl, "model": model}
+
     def generate_product(self, rng, tier, boundary=False):
         """2-3 environments x 2-3 filters of one kind through Environments.filter([...]) / shuffle(seeds=[...]) / reservoir(n, seeds=[...])"""
         base = self.generate_multi(rng, tier, boundary)
@@ -1636,6 +1952,7 @@ class C09(Property):
         cs.extend(self.corpus_reslong())
         cs.extend(self.corpus_shufcall(sim))
         cs.extend(self.corpus_cachemulti(sim, log))
+        cs.extend(self.corpus_chain(sim, log))
         # collections of environments behind the Environments shortcut methods, read out of order and repeatedly
         def env(lo, n):
             return [{"id": lo + i, "ctx": {"l": [i % 3, "a"]}, "actions": [1, 2, 3], "rewards": [0, 1, 0]} for i in range(n)]
@@ -1707,6 +2024,8 @@ class C09(Property):
             return self.evaluate_cachemulti(case, driver)
         if case["op"]["name"] == "shufcall":
             return self.evaluate_shufcall(case, driver)
+        if case["op"]["name"] == "chain":
+            return self.evaluate_chain(case, driver)
         fails, tags = [], []
         op = case["op"]
         name = op["name"]
@@ -2421,6 +2740,19 @@ class C09(Property):
         if case["op"]["name"] == "multi":
             yield from self.shrink_multi(case)
             return
+        if case["op"]["name"] == "chain":
+            op, its = case["op"], case["items"]
+            if op["form"] != "join":
+                yield dict(case, op=dict(op, form="join", shape=list(range(len(op["stages"])))))
+            if len(case.get("reads") or []) > 0:
+                yield dict(case, reads=[])
+            if len(op["stages"]) > 1:
+                for j in range(len(op["stages"])):
+                    stg = op["stages"][:j] + op["stages"][j + 1:]
+                    yield dict(case, op=dict(op, stages=stg, form="join", shape=list(range(len(stg)))))
+            for i in range(len(its)):
+                yield dict(case, items=its[:i] + its[i + 1:])
+            return
         if case["op"]["name"] == "shufcall":
             envs = case["envs"]
             if len(envs) > 1:
@@ -2508,7 +2840,7 @@ class C09(Property):
                 break
 
     def snippet(self, case):
-        if case["op"]["name"] in ("product", "unbatchg", "cachepipe", "cachemulti", "shufcall"):
+        if case["op"]["name"] in ("product", "unbatchg", "cachepipe", "cachemulti", "shufcall", "chain"):
             return ("# plain reproduction against the coba checkout (no Lean): evaluates the case with the harness monitor only\n"
                     "import sys, json; sys.path[:0] = [%r, %r]\n"
                     "from props.c09 import PROPERTY\n"
